@@ -7,6 +7,7 @@ import Driver.CodecDrv
 import Driver.InviteDrv
 import Driver.KnowDrv
 import Driver.AppMsgDrv
+import Driver.MediaDrv
 
 def main (args : List String) : IO UInt32 := do
   match args with
@@ -19,4 +20,5 @@ def main (args : List String) : IO UInt32 := do
   | ["invite"] => Driver.InviteDrv.main; return 0
   | ["know"] => Driver.KnowDrv.main; return 0
   | ["appmsg"] => Driver.AppMsgDrv.main; return 0
+  | ["mediaw"] => Driver.MediaDrv.main; return 0
   | _ => IO.eprintln "usage: mdkdrv store < ops"; return 2
